@@ -43,6 +43,7 @@ func C06(c *Ctx) {
 	for _, a := range abs {
 		c06w(c, a.V)
 		c06RuleStackTopOnly(c, a.V)
+		c06MemoEntryIsTheEvaluation(c, a.V)
 		rolledBackErrorsVsMemo(c, a.V, "C06-l")
 		if a.V.Params.Optimize {
 			// debug / memoize / statistics code must be absent
